@@ -787,6 +787,15 @@ class FuncAnalysis:
         tgt = e_false if neg else e_true
         if name in tgt and tgt[name].ty == T_UNK:
             tgt[name] = tgt[name].with_ty(ty)
+        # where the test FAILS: not a tensor -> the tensor facet is void; after that, not an operator either -> the value is a
+        # plain python object (same assumption as for `hasattr(x, "clone")` above: it owns no tensor storage)
+        oth = e_true if neg else e_false
+        if name in oth and oth[name].ty == T_UNK:
+            v = oth[name]
+            if ty == T_TENSOR:
+                oth[name] = AV(frozenset(), T_UNK, v.ety, v.oprov)
+            elif ty == T_OP and not v.prov:
+                oth[name] = AV(frozenset(), T_UNK, v.ety, frozenset())
 
     def _merge(self, dst: Dict[str, AV], a: Dict[str, AV], b: Dict[str, AV]) -> None:
         out = {}
